@@ -53,3 +53,31 @@ func init() {
 		propID = "run"
 	})
 }
+
+// `verif rig <variant> <cores> "R0@0:64 W1@5:64 F0@300:0"` runs one rig schedule (triage aid).
+func init() {
+	register("rig", func(r *Reporter) {
+		args := os.Args[2:]
+		cores, _ := strconv.Atoi(args[1])
+		s := rigSchedule{Variant: args[0], Cores: cores}
+		for _, f := range strings.Fields(args[2]) {
+			var e rigEvent
+			var addr int
+			kind := f[:1]
+			fmt.Sscanf(f[1:], "%d@%d:%d", &e.Core, &e.T, &addr)
+			e.Kind, e.Addr = kind, int32(addr)
+			s.Events = append(s.Events, e)
+		}
+		snaps, pm, stuck := runSchedule(s)
+		fmt.Printf("%s: snapshots=%d panic=%q stuck=%v\n", s.String(), len(snaps), pm, stuck)
+		n := len(snaps)
+		for i := n - 3; i < n; i++ {
+			if i >= 0 {
+				fmt.Println(string(snaps[i]))
+			}
+		}
+		r.Eval("a", true)
+		r.Eval("b", true)
+		propID = "run"
+	})
+}
